@@ -283,8 +283,19 @@ func (w *oracleWorkload) Next(block int) []rig.Tx {
 			out = append(out, r.Mk(actor, &orTag{Kind: "pause", Feed: name, Role: role}, &oracletypes.MsgPauseFeed{FeedName: name, Creator: actor.Addr.String()}))
 		default:
 			msg := &oracletypes.MsgEditFeed{FeedName: name, Description: pick(rng, oracletypes.DoNotModify, "new"), LatestHistory: uint64(rng.Intn(7)), Creator: actor.Addr.String()}
-			if rng.Intn(3) == 0 {
-				msg.ResponseThreshold = 1
+			switch {
+			case name == "tka-stake":
+				if rng.Intn(3) == 0 {
+					msg.ResponseThreshold = 1
+				}
+			case rng.Intn(3) == 0:
+				// raised as well as lowered, also while a batch is open: the open batch keeps the threshold it was issued with
+				msg.ResponseThreshold = uint32(1 + rng.Intn(3))
+				if rng.Intn(2) == 0 {
+					for _, pa := range w.provs {
+						msg.Providers = append(msg.Providers, pa.Addr.String())
+					}
+				}
 			}
 			out = append(out, r.Mk(actor, &orTag{Kind: "edit", Feed: name, Role: role}, msg))
 		}
